@@ -39,6 +39,15 @@ def cases(tier, seed):
                                      "--perturb=" + pert, "--seed=%d" % (seed * 1000 + n),
                                      "--submitters=%d" % rnd.randint(0, 3), "--depth=%d" % rnd.randint(3, 7)],
                                     cls="%s:%s" % (pol, mode), slots=w + 1, timeout=300))
+    # sustained load: many short tasks, shallow trees, all 16 workers, external submitters - keeps the terminated lists and
+    # free lists of every queue full and stolen tasks retiring on foreign workers (a second-round seeded change in the
+    # shared-priority holder only shows under this load)
+    for rep in range(1 if tier == "quick" else 6):
+        for pol in POLICIES + ["shared-priority"]:
+            n += 1
+            out.append(Case("plain", "c01_exactly_once",
+                            ["--scheduler=" + pol, "--threads=16", "--tasks=%d" % (600000 if tier == "quick" else 1500000), "--mode=default", "--perturb=none",
+                             "--seed=%d" % (seed * 1000 + n), "--submitters=3", "--depth=2"], cls="%s:sustained" % pol, slots=17, timeout=400))
     # sanitizer flavours as additional oracles on the same program (thorough; a short pass in quick)
     extra = POLICIES if tier == "thorough" else [POLICIES[seed % 8], POLICIES[(seed + 3) % 8]]
     for pol in extra:
